@@ -14,7 +14,7 @@
    Definitions only; the lemmas are in Proofs.CurvesProofs. *)
 From Coq Require Import ZArith List Bool String Ascii NArith.
 Require Import Model.Base.
-Require Import Gen.CurveTables Gen.Primes.
+Require Import Gen.CurveTables Gen.Primes Gen.CurveNames.
 Import ListNotations.
 Local Open Scope Z_scope.
 
@@ -71,8 +71,10 @@ Record call := mkCall { cname : string; cargs : list argval }.
 Inductive tk := TLocal | TSignal | TComponent | TNone.
 Definition tk_exits (k : tk) : bool := match k with TLocal | TSignal => true | _ => false end.
 
-(* AccessType::ArrayAccess(index expression, here a literal) | ComponentAccess(name) *)
-Inductive access := AIndex (i : Z) | AField (f : string).
+(* AccessType::ArrayAccess(index expression) | ComponentAccess(name).  The index
+   is an Expression compared with Expression::eq: kept is its structural identity
+   (every field but the metas, written out - harness `curves ir`, fn ident) *)
+Inductive access := AIndex (i : string) | AField (f : string).
 
 Inductive rhs := RCall (c : call) | ROther.
 
@@ -81,9 +83,11 @@ Inductive stmt :=
      `var[acc] = rhs`, where rhe = Update { access: acc, rhe: rhs } *)
 | SAssign (k : tk) (var : string) (acc : list access) (r : rhs)
   (* Substitution { op: AssignConstraintSignal, rhe: Update { access: acc, rhe: value } }:
-     `var.acc <== value`; [value] is the identity of the expression under
-     Expression::eq (its printed form).  acc = [] stands for a right-hand side
-     that is not an Update node (`out <== value`). *)
+     `var.acc <== value`; [value] is the structural identity of the expression
+     (every field but the metas written out; the real Expression::eq / Hash are
+     compared with it pair by pair on every run, harness `curves ir`).  acc = []
+     stands for a right-hand side that is not an Update node (`out <== value`).
+     [var] is the variable without its SSA version (name and shadowing suffix). *)
 | SConstrain (var : string) (acc : list access) (value : string)
 | SOther.
 
@@ -185,7 +189,7 @@ Definition num2bits_flagged (c : curve) (name : string) (a : argval) : option bo
 (* ------------------------------------------------------------------ *)
 Definition access_eqb (a b : access) : bool :=
   match a, b with
-  | AIndex i, AIndex j => i =? j
+  | AIndex i, AIndex j => String.eqb i j
   | AField f, AField g => String.eqb f g
   | _, _ => false
   end.
@@ -305,26 +309,116 @@ Definition lessthan_reports (c : curve) (prog : list stmt) : outcome (list strin
   else Ok (lessthan_values c prog).
 
 (* ------------------------------------------------------------------ *)
-(* <Curve as FromStr>::from_str, for ASCII input                        *)
+(* <Curve as FromStr>::from_str, for EVERY string (a Coq string is the  *)
+(* sequence of the bytes of the Rust &str)                              *)
 (* ------------------------------------------------------------------ *)
+(* u8::to_ascii_uppercase: bytes 97..122 lose 32, every other byte - the bytes
+   >= 128 of a multi-byte character included - is left alone *)
 Definition upper_ascii (a : ascii) : ascii :=
   let n := N_of_ascii a in
   if (97 <=? n)%N && (n <=? 122)%N then ascii_of_N (n - 32) else a.
 
+(* str::to_ascii_uppercase *)
 Fixpoint upper (s : string) : string :=
   match s with EmptyString => EmptyString | String a r => String (upper_ascii a) (upper r) end.
+
+(* UTF-8: the code points of a string.  [need] continuation bytes are still
+   expected for the code point accumulated in [acc], whose shortest encoding has
+   that length iff it is >= [minv].  None: not UTF-8 (never the case of a Rust
+   &str; such byte strings are rejected by the model). *)
+Fixpoint utf8_decode (s : string) (need : nat) (acc minv : Z) : option (list Z) :=
+  match s with
+  | EmptyString => match need with O => Some [] | S _ => None end
+  | String a r =>
+    let b := Z.of_N (N_of_ascii a) in
+    match need with
+    | O =>
+      if b <? 128 then match utf8_decode r O 0 0 with Some l => Some (b :: l) | None => None end
+      else if (192 <=? b) && (b <? 224) then utf8_decode r 1%nat (b - 192) 128
+      else if (224 <=? b) && (b <? 240) then utf8_decode r 2%nat (b - 224) 2048
+      else if (240 <=? b) && (b <? 248) then utf8_decode r 3%nat (b - 240) 65536
+      else None
+    | S n =>
+      if (128 <=? b) && (b <? 192) then
+        let acc' := acc * 64 + (b - 128) in
+        match n with
+        | O =>
+          if (minv <=? acc') && (acc' <=? 1114111) && negb ((55296 <=? acc') && (acc' <=? 57343)) then
+            match utf8_decode r O 0 0 with Some l => Some (acc' :: l) | None => None end
+          else None
+        | S _ => utf8_decode r n acc' minv
+        end
+      else None
+    end
+  end.
+
+Fixpoint assocZ {A} (k : Z) (l : list (Z * A)) : option A :=
+  match l with
+  | [] => None
+  | (k', v) :: r => if k =? k' then Some v else assocZ k r
+  end.
+
+(* char::to_uppercase of one code point, when the result is ASCII text:
+   an ASCII character maps like [upper_ascii]; a character >= 128 maps to ASCII
+   text exactly when Gen.CurveNames.unicode_upper_ascii lists it (the table is
+   obtained by EXECUTING char::to_uppercase on every code point >= 128 and
+   keeping the all-ASCII results: dotless i -> I, long s -> S, sharp s -> SS,
+   the Latin ligatures).  None: the upper-cased character is not ASCII. *)
+Definition upper_char (cp : Z) : option string :=
+  if cp <? 128 then Some (String (upper_ascii (ascii_of_N (Z.to_N cp))) EmptyString)
+  else assocZ cp unicode_upper_ascii.
+
+(* str::to_uppercase is the concatenation of char::to_uppercase over the
+   characters (the only context-sensitive rule of Rust's case conversion, final
+   sigma, belongs to to_lowercase).  None: the result contains a character
+   >= 128, so that it equals no ASCII literal. *)
+Fixpoint upper_chars (l : list Z) : option string :=
+  match l with
+  | [] => Some EmptyString
+  | cp :: r =>
+    match upper_char cp, upper_chars r with
+    | Some u, Some v => Some (u ++ v)%string
+    | _, _ => None
+    end
+  end.
+
+Definition unicode_upper (s : string) : option string :=
+  match utf8_decode s O 0 0 with Some l => upper_chars l | None => None end.
+
+(* the two normalisers the reader recognises in `match &curve.<normaliser>()[..]`,
+   each modelled as it behaves.  None: another normaliser (not modelled);
+   Some None: the normalised text is not ASCII. *)
+Definition normalise (s : string) : option (option string) :=
+  if String.eqb from_str_normaliser "to_ascii_uppercase" then Some (Some (upper s))
+  else if String.eqb from_str_normaliser "to_uppercase" then Some (unicode_upper s)
+  else None.
 
 Fixpoint ascii_only (s : string) : bool :=
   match s with EmptyString => true | String a r => (N_of_ascii a <? 128)%N && ascii_only r end.
 
-(* str::to_uppercase applies the Unicode case mapping; on ASCII text it is
-   [upper].  Text with a byte >= 128 is outside this model. *)
-Inductive parse_result := Accepted (c : curve) | Rejected | OutsideModel.
+(* Unmodelled: the source has a normaliser or an arm the model does not know
+   (never the case on the current tree: Proofs.CurvesProofs.nothing_else_accepted) *)
+Inductive parse_result := Accepted (c : curve) | Rejected | Unmodelled.
 
 Definition parse_curve (s : string) : parse_result :=
-  if negb (String.eqb from_str_normaliser "to_uppercase") then OutsideModel
-  else if negb (ascii_only s) then OutsideModel
-  else match assoc (upper s) from_str_arms with
-       | Some v => match curve_of_variant v with Some c => Accepted c | None => OutsideModel end
-       | None => Rejected
-       end.
+  match normalise s with
+  | None => Unmodelled
+  | Some None => Rejected          (* the arms are ASCII literals (from_str_arms_ascii) *)
+  | Some (Some u) =>
+    match assoc u from_str_arms with
+    | Some v => match curve_of_variant v with Some c => Accepted c | None => Unmodelled end
+    | None => Rejected
+    end
+  end.
+
+(* what the model of `to_uppercase` alone answers, whatever the current source
+   says: used to state that the repaired normaliser matters *)
+Definition parse_curve_unicode (s : string) : parse_result :=
+  match unicode_upper s with
+  | None => Rejected
+  | Some u =>
+    match assoc u from_str_arms with
+    | Some v => match curve_of_variant v with Some c => Accepted c | None => Unmodelled end
+    | None => Rejected
+    end
+  end.
